@@ -335,7 +335,6 @@ def gen_section(rng, response, tier):
         kinds = [k for k in kinds if k != "pad"]
         while sum(1 for k in kinds if k == "field") < 2:
             kinds.insert(rng.randrange(0, len(kinds) + 1), "field")
-    attrs = []
     bound = 16
     varprod = 1
     nfields_left = sum(1 for k in kinds if k != "const")
@@ -386,10 +385,8 @@ def gen_section(rng, response, tier):
     if union:
         sts.insert(rng.randrange(0, first_attr + 1), directive("union"))
         first_attr += 1
-    dep = False
     if not response and rng.random() < 0.25:
         sts.insert(rng.randrange(0, first_attr + 1), directive("deprecated"))
-        dep = True
     return sts
 
 
